@@ -47,6 +47,7 @@ def main():
     ap.add_argument("--demo-files", nargs="*", default=[])
     ap.add_argument("--needs", default="")
     ap.add_argument("--skip-validate", action="store_true")
+    ap.add_argument("--quick-only", action="store_true", help="do not run the thorough tier when the quick tier is silent (round 4: time)")
     ap.add_argument("--as", dest="as_k", default=None, help="store as seeded/<Cxx>-<as>")
     a = ap.parse_args()
     src = os.path.join(a.mutdir, a.k)
@@ -109,7 +110,7 @@ def main():
         meta["applies_to_head"] = True
         try:
             caught = None
-            for tier in ("quick", "thorough"):
+            for tier in (("quick",) if a.quick_only else ("quick", "thorough")):
                 t0 = time.time()
                 rc, out = sh("./check %s --tier %s" % (a.pid, tier), cwd="/verif", timeout=6000)
                 viol = [l for l in out.split("\n") if l.startswith("VIOLATION")]
